@@ -741,6 +741,42 @@ func c08NilAndFalsyElements(t *engine.T, mk func() *plush.Context) {
 		tc{"slice of pointers, pointer-receiver method", `<%= for (i, v) in tm { %><%= v.Hello() %>,<% } %>`, "", func(c *plush.Context) { c.Set("tm", []*Person{}) }},
 		tc{"Iterator yielding a named string type", `<%= for (i, v) in tm { %><%= i %>=<%= v.Up() %>,<% } %>`, "0=EN,", func(c *plush.Context) { c.Set("tm", &c08ListIter{items: []interface{}{c08Lang("en")}}) }},
 	)
+	// an exhausted iterator stays exhausted whatever iterators are made after it; a loop with an empty body still
+	// walks its iterable (an Iterator is drained, Next is called once per element and once more)
+	none := func(c *plush.Context) {}
+	cases = append(cases,
+		tc{"exhausted range held in a variable, new ranges made afterwards", `<% let it = range(1, 2) %><%= for (v) in it { %><%= v %><% } %>|<%= for (a) in range(7, 9) { %>[<%= a %><%= for (v) in it { %><%= v %><% } %>]<% } %>`, "12|[7][8][9]", none},
+		tc{"exhausted range looped twice, then two nested fresh ranges", `<% let it = range(1, 2) %><%= for (v) in it { %><% } %><%= for (v) in it { %>x<% } %><%= for (v) in it { %>y<% } %><%= for (a) in range(1, 2) { %><%= for (b) in range(5, 6) { %>(<%= a %>,<%= b %>)<% } %><% } %>`, "(1,5)(1,6)(2,5)(2,6)", none},
+		tc{"exhausted until / between held in variables", `<% let u = until(2) %><% let w = between(0, 3) %><%= for (v) in u { %><%= v %><% } %><%= for (v) in w { %><%= v %><% } %>|<%= for (a) in until(2) { %><%= for (b) in between(0, 3) { %><%= a %><%= b %>,<% } %><%= for (v) in u { %>U<% } %><%= for (v) in w { %>W<% } %><% } %>`, "0112|01,02,11,12,", none},
+		tc{"empty body drains a range", `<% let it = range(1, 3) %><%= for (v) in it { } %><%= for (v) in it { %>[<%= v %>]<% } %>|`, "|", none},
+		tc{"empty body over several tags drains a range", `<% let it = range(1, 3) %><%= for (v) in it { %><% } %>[<%= for (v) in it { %><%= v %><% } %>]`, "[]", none},
+		tc{"silent empty body drains a range", `<% let it = range(1, 3) %><% for (v) in it { } %>[<%= for (v) in it { %><%= v %><% } %>]`, "[]", none},
+		tc{"empty body calls Next of a custom Iterator", `<%= for (v) in cit { } %><%= cit.Calls() %>`, "4", func(c *plush.Context) { c.Set("cit", &c08CountIter{n: 3}) }},
+		tc{"comment-only body calls Next of a custom Iterator", `<%= for (v) in cit { # nothing
+ } %><%= cit.Calls() %>|<%= for (v) in cit2 { %><%# c %><% } %><%= cit2.Calls() %>`, "4|3", func(c *plush.Context) {
+			c.Set("cit", &c08CountIter{n: 3})
+			c.Set("cit2", &c08CountIter{n: 2})
+		}},
+	)
+	// a non-iterable is an error whatever the loop body is - empty, a comment, text
+	for _, it := range []string{"42", `"str"`, "true", "pers", "fnv"} {
+		for _, body := range []string{`{ }`, `{ %><% }`, `{ # c
+ }`, `{ %><%# c %><% }`, `{ %>t<% }`} {
+			for _, form := range []string{`<%= for (x) in %s %s %%>`, `<%% for (x) in %s %s %%>`, `<%%= for (o) in [1] { %%><%%= for (x) in %s %s %%><%% } %%>`} {
+				src := fmt.Sprintf(form, it, body)
+				t.Case("elements non-iterable with body "+q(src), true, func() (string, *engine.Fail) {
+					ctx := mk()
+					ctx.Set("pers", Person{Name: "n"})
+					ctx.Set("fnv", func() int { return 1 })
+					out, err := Render(src, ctx)
+					if err == nil {
+						return "", engine.Failf("mismatch", "a value that cannot be iterated over was accepted: rendered %q", out)
+					}
+					return "rejected", nil
+				})
+			}
+		}
+	}
 	for _, c := range cases {
 		c := c
 		t.Case("elements "+c.name+" "+q(c.src), true, func() (string, *engine.Fail) {
@@ -874,3 +910,17 @@ type c08ID int
 func (i c08ID) Double() int { return int(i) * 2 }
 
 type c08Key struct{ Name string }
+
+// c08CountIter yields 1..n and counts the calls of Next.
+type c08CountIter struct{ n, i, calls int }
+
+func (c *c08CountIter) Next() interface{} {
+	c.calls++
+	if c.i >= c.n {
+		return nil
+	}
+	c.i++
+	return c.i
+}
+
+func (c *c08CountIter) Calls() int { return c.calls }
